@@ -125,7 +125,9 @@ CheckPlateau(id, c) ==
   ELSE LET w == IF c.method = "fit" THEN [k \in DOMAIN ts |-> RDiv("1", RSq(c.dv[ts[k] + 1]))] ELSE [k \in DOMAIN ts |-> "1"]
            exp == WeightedMean(a, ts, w, c.n)
            tol == IF c.method = "fit" THEN "1/10000000" ELSE R9
-       IN Verdict(id, "plateau " \o c.method, SlotClose(c.res.x, exp, tol, RMul(tol, RAdd(RAbs(exp.v), RMaxAbsSeq(exp.d)))))
+           \* the scale of the tolerance is that of the data entering the mean, not of the (possibly cancelling) mean itself
+           sc == RMaxAbsSeq([k \in DOMAIN ts |-> RAdd(RAbs(Entry(a, ts[k], 1, 1).v), RMaxAbsSeq(Entry(a, ts[k], 1, 1).d))])
+       IN Verdict(id, "plateau " \o c.method, SlotClose(c.res.x, exp, tol, RMul(tol, sc)))
 
 CheckDerived(id, c) ==
   IF c.what = "plateau" THEN CheckPlateau(id, c)
